@@ -1,4 +1,5 @@
 import ActixModel.Proofs.Files
+import ActixModel.Proofs.PathBuf
 import ActixModel.Proofs.Range
 /-
 C16 — static file serving stays inside its root and answers ranges exactly.
@@ -97,6 +98,33 @@ theorem C16_encoded_slash_rejected (hidden : Bool) (path : Bytes)
 example : countByte 0x2F (percentDecode (ascii ['/', 'a', '%', '2', 'F', 'b'])) ≠ countByte 0x2F (ascii ['/', 'a', '%', '2', 'F', 'b']) := by
   decide
 
+/-- **C16_pathbuf_refines**: the model with the `PathBuf` as a byte string — `push` inserting
+separators, `pop` cutting at the last one, and std's component parser (skipping empty and `.`
+pieces, `..` = ParentDir, leading `/` = RootDir) in the final assertion — is exactly the
+component-list model rendered with `/`: same errors, same (absent) panics, for every input.
+(The correspondence run compares this string with the real `PathBuf`.) -/
+theorem C16_pathbuf_refines (hidden : Bool) (path : Bytes) :
+    parsePathS hidden path = (parsePath hidden path).map render :=
+  parsePathS_refines hidden path
+
+/-- … and the rendered string parses back, with std's parser, into exactly the Normal components:
+no `RootDir` (absolute path replacing the root in `join`), no `ParentDir`, no `CurDir`. -/
+theorem C16_components_normal (hidden : Bool) (path : Bytes) (s : Bytes)
+    (h : parsePathS hidden path = .ok s) :
+    ∃ buf, parsePath hidden path = .ok buf ∧ s = render buf ∧ componentsS s = buf.map .normal := by
+  rw [parsePathS_refines] at h
+  cases hp : parsePath hidden path with
+  | ok buf =>
+    rw [hp] at h
+    simp only [Outcome.map, Outcome.ok.injEq] at h
+    have hn := parsePath_post hidden path
+    rw [hp] at hn
+    exact ⟨buf, rfl, h.symm, h ▸ componentsS_render hn⟩
+  | err e => rw [hp] at h; cases h
+  | panic p => rw [hp] at h; cases h
+
+example : parsePathS false (ascii ['/', 'a', '/', '.', '.', '/', 'b', '/', 'c', '/']) = .ok (ascii ['b', '/', 'c']) := by decide
+
 /-- `serve` answers with a file or a listing only at a tree position whose components are all
 Normal (given a Normal index-file name): the served location is `root/…` for every root. -/
 def ServedInside (ix : Option Bytes) : Served → Prop
@@ -143,6 +171,15 @@ theorem C16_serve_inside (cfg : Config) (t : Tree) (getOrHead : Bool) (unprocess
             · exact h
             · simp [ServedInside]
       · exact h
+
+/-- **C16_request_inside**: the same for a raw request target: whatever bytes the URI path holds,
+after the router's re-quoting (`%XX` decoded except `%25 %2F %2B`) and lossy UTF-8 conversion the
+service (mounted at `/`) still never panics and serves only below the root. -/
+theorem C16_request_inside (cfg : Config) (t : Tree) (getOrHead : Bool) (rawUriPath : Bytes)
+    (hix : ∀ ix, cfg.index = some ix → isNormalSeg ix = true) :
+    ServedInside cfg.index
+      (serve cfg t getOrHead (urlPath rawUriPath) (endsWithByte 0x2F (urlPath rawUriPath))) :=
+  C16_serve_inside cfg t getOrHead _ _ hix
 
 /-- **C16_serve_file_in_tree**: a served file is an entry of the tree below the root (the model's
 file system has nothing else), found under exactly the parsed path or that path plus the index name. -/
